@@ -330,6 +330,11 @@ class Interp:
                     state.env[st.target.id] = ast.BinOp(left=cur, op=st.op, right=subst(value, state.env))
                 else:
                     state.env.pop(st.target.id, None)
+            elif isinstance(st, ast.AugAssign) and isinstance(st.target, (ast.Attribute, ast.Subscript)):
+                # `obj.attr += v` / `d[k] += v`: a store of `old <op> v` (recorded like a plain store)
+                cur_ = copy.deepcopy(st.target)
+                cur_.ctx = ast.Load()
+                self._bind(st.target, ast.fix_missing_locations(ast.BinOp(left=subst(cur_, state.env), op=st.op, right=subst(value, state.env))), state)
             return [Flow("next", state)]
         if isinstance(st, ast.Expr):
             v = st.value
